@@ -327,8 +327,9 @@ func (s *indexKVStore) getOrCreateValue(bucketID uint32, key []byte,
 		if err != nil {
 			return 0, false, false, err
 		}
-		if bucket != nil {
-			s.bucketCache.Add(bucketID, bucket)
+		if bucket != nil && !s.addBucketCache(bucketID, bucket, snapshot) {
+			// a flush replaced the snapshot meanwhile: the bucket is not cached, release it after use
+			defer bucket.Release()
 		}
 	}
 	if bucket != nil {
@@ -349,6 +350,20 @@ func (s *indexKVStore) getOrCreateValue(bucketID uint32, key []byte,
 		return 0, false, false, err
 	}
 	return id, true, isNew, nil
+}
+
+// addBucketCache caches the bucket read from snapshot unless a flush has replaced the snapshot since
+// (Flush swaps the snapshot and purges the cache under the write lock: a bucket of the old snapshot
+// added after that purge would hide every key the flush persisted until the next purge).
+func (s *indexKVStore) addBucketCache(bucketID uint32, bucket *model.TrieBucket, snapshot version.Snapshot) bool {
+	s.lock.RLock()
+	defer s.lock.RUnlock()
+
+	if s.snapshot != snapshot {
+		return false
+	}
+	s.bucketCache.Add(bucketID, bucket)
+	return true
 }
 
 // createValue creates new value, unless the key got a value since the caller looked it up.
